@@ -309,6 +309,29 @@ mut("sb-iqft-angle", ["C14"], "qlasskit/qcircuit/qcircuit.py", "iqft angle not n
 mut("sb-full-adder", ["C01"], "qlasskit/types/__init__.py", "full adder carry drops a term")(replace_expr("_full_adder", "a & b ^ (a ^ b) & c", "a & b ^ a & c"))
 mut("sb-aug-swap", ["C01"], "qlasskit/ast2ast/astrewriter.py", "a op= b expanded as b op a")(replace_expr("ASTRewriter.visit_AugAssign", "ast.BinOp(left=node.target, op=node.op, right=node.value)", "ast.BinOp(left=node.value, op=node.op, right=node.target)"))
 
+# ---- rules added after seeding round b
+mut("dp-stale-copy", ["C01"], "qlasskit/ast2ast/env.py", "copy_type keeps a stale constant")(replace_stmt("Environment.copy_type", "self.constants.pop(dest, None)", ""))
+mut("dp-stale-wrap", ["C01"], "qlasskit/ast2ast/astrewriter.py", "recorded scalar spliced in as a literal")(replace_stmt("ASTRewriter.visit_Subscript", "node.slice = self.env.get_constant(node.slice.id)", "node.slice = ast.Constant(value=self.env.get_constant(node.slice.id))"))
+mut("ts-inplace-not", ["C03"], "qlasskit/compiler/internalcompiler.py", "negation in place of a non-ancilla qubit")(replace_expr("InternalCompiler.compile_not", "eret in qc.ancilla_lst", "eret >= len(self.input_symbols)"))
+mut("ts-prep-subset", ["C16"], "qlasskit/algorithms/deutschjozsa.py", "closing Hadamards on a filtered subset")(
+    lambda t: rewrite_in(t, "DeutschJozsa.__init__", lambda n: isinstance(n, ast.For) and n.lineno > 50 and "self._qcircuit.h(i)" in norm(n), lambda n: parse_stmt("for i in [k for k in range(self.search_space_size) if k in self._f_circuit.used_qubits]:\n    self._qcircuit.h(i)"))
+)
+mut("memo-key-decopt", ["C12"], "qlasskit/decompiler/decopt.py", "re-synthesis memoised under a partial key")(
+    lambda t: rewrite_in(t, "circuit_boolean_optimizer", lambda n: isinstance(n, ast.Assign) and norm(n.targets[0]) == "qc_sec", lambda n: [parse_stmt("qc_sec = _memo.get((compiler, tuple(section.expressions)))"), parse_stmt("if qc_sec is None:\n    qc_sec = exprs_to_quantum(exprs=n_exps, symbols=symbols, compiler=compiler)\n    _memo[compiler, tuple(section.expressions)] = qc_sec")])
+    and (t.body.insert(len([x for x in t.body if isinstance(x, (ast.Import, ast.ImportFrom, ast.Expr))]), parse_stmt("_memo = {}")) or 1)
+)
+mut("sb-pow-count", ["C01"], "qlasskit/ast2ast/astrewriter.py", "a ** n unrolled into n+1 factors")(replace_expr("ASTRewriter.visit_BinOp", "range(node.right.value - 1)", "range(node.right.value)"))
+mut("sb-minmax-first", ["C01"], "qlasskit/ast2ast/astrewriter.py", "min/max compares the other element with itself")(replace_expr("ASTRewriter.__call_minmax", "ast.Compare(left=arg_l[0], ops=[op], comparators=[l_it])", "ast.Compare(left=l_it, ops=[op], comparators=[arg_l[0]])"))
+mut("sb-lookup-offset", ["C01"], "qlasskit/ast2ast/astrewriter.py", "constant-list lookup compares with the wrong position")(replace_expr("ASTRewriter.visit_Subscript", "ast.Constant(value=i + 1)", "ast.Constant(value=i)"))
+mut("sb-ifexp-index", ["C01"], "qlasskit/ast2ast/astrewriter.py", "variable index chain selects the next element")(replace_expr("create_if_exp", "_create_if_exp(i + 1)", "_create_if_exp(i + 2)"))
+mut("sb-multitarget", ["C01"], "qlasskit/ast2ast/replacemultitargetassign.py", "a, b = t assigns element 0 to every target")(replace_expr("ReplaceMultiTargetAssign.visit_Assign", "ast.Subscript(value=node.value, slice=ast.Constant(value=i))", "ast.Subscript(value=node.value, slice=ast.Constant(value=0))"))
+mut("sb-ripple-carry", ["C01"], "qlasskit/types/qint.py", "adder step ignores the incoming carry")(replace_expr("QintImp.add", "_full_adder(carry, x[0], x[1])", "_full_adder(False, x[0], x[1])"))
+mut("sb-cf-swap", ["C01"], "qlasskit/ast2ast/constantfolder.py", "constant folder applies op(right, left)")(replace_expr("ConstantFolder.visit_BinOp", "op(node.left.value, node.right.value)", "op(node.right.value, node.left.value)"))
+mut("mp-addqubit-index", ["C05"], "qlasskit/qcircuit/qcircuit.py", "add_qubit records the index after the increment")(
+    lambda t: rewrite_in(t, "QCircuit.add_qubit", lambda n: isinstance(n, ast.Assign) and norm(n.targets[0]) == "self.qubit_map[name]", lambda n: ast.Pass())
+    and rewrite_in(t, "QCircuit.add_qubit", lambda n: isinstance(n, ast.AugAssign) and norm(n.target) == "self.num_qubits", lambda n: [n, parse_stmt("self.qubit_map[name] = self.num_qubits")])
+)
+
 # ---- benign twins: (id, description, edit(root_dir) -> None)
 B = []
 
@@ -550,3 +573,32 @@ def _b_annot(root):
         tree = T().visit(tree)
         ast.fix_missing_locations(tree)
         open(p, "w").write(ast.unparse(tree) + "\n")
+
+
+@twin("b-setitem", "QCircuit.add_qubit stores the new name through __setitem__, bind() edits the tree through an alias")
+def _b_setitem(root):
+    p = os.path.join(root, "qlasskit/qcircuit/qcircuit.py")
+    src = open(p).read()
+    assert "self.qubit_map[name] = self.num_qubits" in src
+    open(p, "w").write(src.replace("self.qubit_map[name] = self.num_qubits", "self[name] = self.num_qubits"))
+    p = os.path.join(root, "qlasskit/qlassfun.py")
+    src = open(p).read()
+    a = "        fun_ast = copy.deepcopy(self.fun_ast)\n"
+    assert a in src
+    src = src.replace(a, a + "        fun_def = fun_ast.body[0]\n")
+    src = src.replace("fun_ast.body[0].args.args", "fun_def.args.args").replace("fun_ast.body[0].body = new_body + fun_ast.body[0].body", "fun_def.body = new_body + fun_def.body")
+    open(p, "w").write(src)
+
+
+@twin("b-positional-ctor", "syntax constructors called positionally / through a local alias in the rewriter")
+def _b_positional(root):
+    p = os.path.join(root, "qlasskit/ast2ast/astrewriter.py")
+    src = open(p).read()
+    a = "ast.BinOp(left=node.target, op=node.op, right=node.value)"
+    b = "return ast.BinOp(left=arg_l[0], op=ast.Add(), right=iterif(arg_l[1:]))"
+    c = "        return ast.BoolOp(op=op, values=args)\n"
+    assert a in src and b in src and c in src
+    src = src.replace(a, "ast.BinOp(node.target, node.op, node.value)")
+    src = src.replace(b, "head = arg_l[0]\n                return ast.BinOp(head, ast.Add(), iterif(arg_l[1:]))")
+    src = src.replace(c, "        return ast.BoolOp(values=args, op=op)\n")
+    open(p, "w").write(src)
